@@ -76,6 +76,30 @@ SENTINELS = (0.3125, 0.71875)
 CLS_UNWRITTEN = 'VineCopula.get_likelihood:reads-unwritten-cells'
 CLS_WRONGCELL = 'VineCopula.get_likelihood:reads-wrong-cell'
 CLS_WRONGU = 'Edge.get_conditional_uni:wrong-parent-pseudo-observation'
+CLS_REFIT = 'VineCopula.fit:refit-differs-from-fresh'
+
+
+def cause_of(vt, k, sorted_ok, flow_ok):
+    """Why an edge of tree k (0-based) is fed / read wrongly.  None <=> exactly the RECORDED finding: a direct or
+    regular vine, level >= 3, parents in sort_edge order, and the child's conditioned variables are not carried by
+    parents[0] / parents[1] respectively (flowOK false).  Anything else is a different defect."""
+    if not sorted_ok:
+        return 'parents-not-sorted'
+    if vt == 'center':
+        return 'center'
+    if k < 2:
+        return 'level-2'
+    if flow_ok:
+        return 'flowOK-holds'
+    return None
+
+
+def cls_wrongu(cause):
+    return CLS_WRONGU if cause is None else f'Edge.get_conditional_uni:wrong-pseudo-observation:{cause}'
+
+
+def cls_unwritten(cause):
+    return CLS_UNWRITTEN if cause is None else f'{CLS_UNWRITTEN}:{cause}'
 
 
 # ----------------------------------------------------------------------------- generators
@@ -113,6 +137,13 @@ def gen_table(rng, d, mode, n=None):
         Z[:k, j] = rs.randn(k)
     elif mode == 'discrete':
         Z = np.round(Z * rng.choice([2.0, 4.0])) + 1e-3 * rs.randn(n, d) * (rng.random() < 0.5)
+    if d >= 3 and rng.random() < 0.7:
+        # center vines: the anchor edge (0, strongest partner of column 0) must sort AFTER another first-tree edge
+        from scipy.stats import kendalltau
+        taus = [abs(kendalltau(Z[:, 0], Z[:, j])[0]) for j in range(1, d)]
+        if int(np.nanargmax(taus)) == 0:
+            j = rng.randint(2, d - 1)
+            Z[:, [1, j]] = Z[:, [j, 1]]
     return pd.DataFrame(Z, columns=[f'c{i}' for i in range(d)])
 
 
@@ -458,7 +489,7 @@ def slot_meaning(p, s):
 
 
 def oracle_inputs(vine):
-    """per edge above the first tree: (tree, edge, used slots, needed meaning) where they differ."""
+    """per edge above the first tree: (cause, tree, edge, used slots, needed meaning) where they differ."""
     from copulas.multivariate.tree import Edge
     bad = []
     for k in range(1, len(vine.trees)):
@@ -470,7 +501,11 @@ def oracle_inputs(vine):
             need = ((int(e.L), D), (int(e.R), D))
             got = tuple(slot_meaning(prev[u[0]], u[1]) if u is not None else None for u in used)
             if got != need:
-                bad.append({'tree': k + 1, 'edge': (int(e.L), int(e.R), sorted(D)),
+                p0, p1 = e.parents
+                sorted_ok = (int(p0.L), int(p0.R)) <= (int(p1.L), int(p1.R))
+                flow_ok = int(e.L) in (int(p0.L), int(p0.R)) and int(e.R) in (int(p1.L), int(p1.R))
+                bad.append({'cause': cause_of(vine.vine_type, k, sorted_ok, flow_ok),
+                            'tree': k + 1, 'edge': (int(e.L), int(e.R), sorted(D)),
                             'parents': [(int(p.L), int(p.R), sorted(int(x) for x in p.D)) for p in e.parents],
                             'used': [f'F({g[0]}|{sorted(g[1])})' if g else None for g in got],
                             'needed': [f'F({n_[0]}|{sorted(n_[1])})' for n_ in need]})
@@ -515,7 +550,7 @@ OBS = ['corr:select_copula inputs = plan inputs', 'corr:edge.name/theta = select
        'corr:get_likelihood = sum log pdf along plan reads', 'corr:all reads written => deterministic',
        'corr:goodVine => get_likelihood = specification sum', 'corr:_sample_row = sampling plan',
        'corr:first tree rooted-tree certificate', 'corr:sample(n) shape/no-NaN/reproducible',
-       'corr:structure extractable']
+       'corr:structure extractable', 'corr:parents in sort_edge order', 'corr:center vine => goodVine']
 
 
 def run(ctx, lean):
@@ -571,7 +606,7 @@ def tie_one(ctx, lean, X, vt, t, v, log, eps_hex, note, rng):
     # ---- fit plan
     import copulas.bivariate as CB
     plan = parse_levels(lean.ask('flow fit ' + T), 2)
-    need = parse_levels(lean.ask('flow need ' + T), 3)
+    need = parse_levels(lean.ask('flow need ' + T), 4)
     if isinstance(plan, tuple) or isinstance(need, tuple) or len(log) != len(edges_flat):
         note('corr:select_copula inputs = plan inputs',
              dict(where, plan=str(plan)[:200], need=str(need)[:100], calls=len(log), edges=len(edges_flat)))
@@ -621,9 +656,14 @@ def tie_one(ctx, lean, X, vt, t, v, log, eps_hex, note, rng):
                             'U': repr(float(U[tuple(bi)]))},
                            'pseudo-observations strictly inside (0,1)', CLS_URANGE)
         # which rows does the real code take / which are needed
-        fl, nl, nr = need[k][i]
+        fl, so, nl, nr = need[k][i]
         ctx.count(f'flowOK={fl}' if k > 0 else 'first-tree edge')
         if k > 0:
+            if so != '1':
+                note('corr:parents in sort_edge order',
+                     dict(where, tree=k, edge=i, parents=[(int(p.L), int(p.R), sorted(int(x) for x in p.D)) for p in e.parents]))
+            if vt == 'center' and k == 1 and real[k][i]['parents'][0] != 0:
+                ctx.count('center level 2: anchor edge sorts after the other parent')
             from copulas.multivariate.tree import Edge
             lu, ru = Edge.get_conditional_uni(*e.parents)
             prev = v.trees[k - 1].edges
@@ -633,16 +673,22 @@ def tie_one(ctx, lean, X, vt, t, v, log, eps_hex, note, rng):
             if fl == '1' and (sl, sr) != (nl, nr):
                 note('corr:flowOK => plan = needed slots', dict(where, tree=k, edge=i, plan=(sl, sr), need=(nl, nr)))
             if (sl, sr) != (nl, nr):
-                any_wrong.append({'tree': k + 1, 'edge': (real[k][i]['L'], real[k][i]['R'], real[k][i]['D']),
+                any_wrong.append({'cause': cause_of(vt, k, so == '1', fl == '1'), 'tree': k + 1,
+                                  'edge': (real[k][i]['L'], real[k][i]['R'], real[k][i]['D']),
+                                  'parents': [(int(p.L), int(p.R), sorted(int(x) for x in p.D)) for p in e.parents],
                                   'used': (sl, sr), 'needed': (nl, nr)})
     if any_wrong:
         ctx.count('vines with a wrongly fed edge')
-        ctx.fail_input('VineCopula.fit', table_input(X, vt, t), any_wrong[0],
-                       'each pair copula is fitted on F(L|D) and F(R|D)', CLS_WRONGU)
+    for cause in sorted({w['cause'] for w in any_wrong}, key=str):
+        ctx.count(f'wrongly fed edge, cause={cause or "recorded finding"}')
+        ctx.fail_input('VineCopula.fit', table_input(X, vt, t), [w for w in any_wrong if w['cause'] == cause][0],
+                       'each pair copula is fitted on F(L|D) and F(R|D)', cls_wrongu(cause))
 
     # ---- likelihood plan
     good = lean.ask('flow good ' + T) == 'ok 1'
     ctx.count(f'goodVine={int(good)} type={vt}')
+    if vt == 'center' and not good:
+        note('corr:center vine => goodVine', dict(where, trees=[[(e['L'], e['R'], e['D'], e['parents']) for e in t_] for t_ in real]))
     lplan = parse_levels(lean.ask('flow lik ' + T), 2)
     spec = parse_spec(lean.ask('flow spec ' + T))
     u = np.array([[rng.uniform(0.02, 0.98) for _ in range(d)]])
@@ -679,7 +725,9 @@ def tie_one(ctx, lean, X, vt, t, v, log, eps_hex, note, rng):
                                {'np.empty filled with %r' % SENTINELS[0]: res[0],
                                 'np.empty filled with %r' % SENTINELS[1]: res[1],
                                 'unwritten cells read (tree, edge, cell)': [(k + 1, i, tok[1:]) for k, i, tok in unwritten[:4]]},
-                               'get_likelihood(u) is a function of (model, u)', CLS_UNWRITTEN)
+                               'get_likelihood(u) is a function of (model, u)',
+                               cls_unwritten(next((c_ for c_ in (cause_of(vt, k, need[k][i][1] == '1', need[k][i][0] == '1')
+                                                                  for k, i, _ in unwritten) if c_ is not None), None)))
             else:
                 ctx.count('unwritten read but result insensitive')
         if not isinstance(spec, tuple):
@@ -792,10 +840,11 @@ def check_real(ctx, X, vt, t, counts, rng, deep):
                                                        'max': float(np.nanmax(U)), 'nan': bool(np.isnan(U).any())},
                                'pseudo-observations strictly inside (0,1)', CLS_URANGE)
     wrong = oracle_inputs(v) if d >= 3 else []
-    if wrong:
+    for cause in sorted({w['cause'] for w in wrong}, key=str):
         counts['failures'] += 1
         counts['wrong-parent-U'] += 1
-        ctx.fail_input('VineCopula.fit', inp, wrong[0], 'each pair copula is fitted on F(L|D) and F(R|D)', CLS_WRONGU)
+        ctx.fail_input('VineCopula.fit', inp, [w for w in wrong if w['cause'] == cause][0],
+                       'each pair copula is fitted on F(L|D) and F(R|D)', cls_wrongu(cause))
     # likelihood
     u = np.array([[rng.uniform(0.02, 0.98) for _ in range(d)]])
     res = [real_lik(v, u, s) for s in SENTINELS]
@@ -805,7 +854,9 @@ def check_real(ctx, X, vt, t, counts, rng, deep):
         counts['lik-nondeterministic'] += 1
         ctx.fail_input('VineCopula.get_likelihood', inp_u,
                        {'np.empty filled with %r' % SENTINELS[0]: res[0], 'np.empty filled with %r' % SENTINELS[1]: res[1]},
-                       'get_likelihood(u) is a function of (model, u)', CLS_UNWRITTEN)
+                       'get_likelihood(u) is a function of (model, u)',
+                       cls_unwritten('no-wrongly-fed-edge' if not wrong else
+                                     next((w['cause'] for w in wrong if w['cause'] is not None), None)))
     else:
         with np.errstate(all='ignore'):
             try:
